@@ -238,6 +238,15 @@ func (s *State) Clone() *State {
 	return n
 }
 
+// Fact returns the recorded truth of a branch atom in this state.
+func (s *State) Fact(atom *Term) (val, known bool) {
+	if s == nil {
+		return false, false
+	}
+	v, ok := s.facts[atom.Key()]
+	return v, ok
+}
+
 // Reg returns the term bound to an SSA value in the root frame (nil if none).
 func (s *State) Reg(v ssa.Value) *Term {
 	if s == nil || len(s.frames) == 0 {
